@@ -4,6 +4,33 @@ import "verif/internal/eng"
 
 func init() {
 	register(&Property{
+		ID: "C08",
+		Explanation: "Decides field-by-field agreement and ordering in the index code, not equality of lookups over histories: (index-wire-fields) every field of the on-disk blob record (enumerated from the struct blobJSON; an unknown field is a violation) is written by generatePackList from the in-memory entry field of the same meaning and copied by DecodeIndex into the pack.Blob field of the same name; the pack ID written is idx.packs[e.packIndex] and is registered on decode, each blob being stored under the pack index addToPacks returned; Index.store hands blob.ID/Offset/Length/UncompressedLength to the indexMap.add parameter of the same name, into the table of blob.Type; indexMap.add stores every parameter in the entry field of the same name and toPackedBlob reads them back into the result; (narrowing-guards) Index.store narrows Offset, Length and UncompressedLength to 32 bits only behind the <= MaxUint32 edges, addToPacks returns and merge copies entries only behind len(idx.packs) <= MaxUint32; (index-load-order) MasterIndex.Load merges only after ForAllIndexes succeeded, loads only after prepareIncrementalLoad succeeded, returns MergeFinalIndexes' result; for an index that was not loaded before, decoded without error and accepted by the caller, the callback cannot return without mi.Insert(idx); prepareIncrementalLoad clears the in-memory index when a previously loaded index file has disappeared; (index-locks, master-index-locks: C16) the index structures are only touched under their mutexes. Not decided: that lookups after any history of added/removed index files equal a fresh load, duplicate handling in merge, and JSON encoding of the values.",
+		Assumptions: commonAssumptions,
+		Technique:   "static analysis: writer/reader field-table agreement enumerated from struct types + CFG edge cuts for range checks and ordering + specialised path evaluation + locksets (go/ssa, go/types)",
+		AllConfigs:  true,
+		Run: func(c *eng.Ctx) {
+			ruleIndexWireFields(c)
+			ruleNarrowingGuards(c)
+			ruleIndexLoadOrder(c)
+			ruleGuardedFields(c, masterIndexGuard)
+			ruleGuardedFields(c, indexGuard)
+			ruleFinalizeSites(c)
+		},
+		Controls: []Control{
+			{Name: "length-and-uncompressed-length-swapped-on-decode", File: "internal/repository/index/index.go",
+				Old: "				Length:             blob.Length,\n				UncompressedLength: blob.UncompressedLength,\n			})\n		}\n	}\n	idx.ids = append(idx.ids, id)", New: "				Length:             blob.UncompressedLength,\n				UncompressedLength: blob.Length,\n			})\n		}\n	}\n	idx.ids = append(idx.ids, id)", Rule: "index-wire-fields"},
+			{Name: "uncompressed-length-not-written", File: "internal/repository/index/index.go",
+				Old: "				UncompressedLength: uint(e.uncompressedLength),\n", New: "", Rule: "index-wire-fields"},
+			{Name: "offset-range-check-dropped", File: "internal/repository/index/index.go",
+				Old: "	if blob.Offset > math.MaxUint32 || blob.Length > math.MaxUint32 ||", New: "	if blob.Length > math.MaxUint32 ||", Rule: "narrowing-guards"},
+			{Name: "merge-after-failed-load", File: "internal/repository/index/master_index.go",
+				Old: "	if err != nil {\n		return err\n	}\n\n	return mi.MergeFinalIndexes()", New: "	if err != nil {\n		_ = mi.MergeFinalIndexes()\n		return err\n	}\n\n	return mi.MergeFinalIndexes()", Rule: "index-load-order"},
+			{Name: "vanished-index-keeps-stale-entries", File: "internal/repository/index/master_index.go",
+				Old: "		mi.clear()\n		loadedIDs = nil", New: "		loadedIDs = nil", Rule: "index-load-order"},
+		},
+	})
+	register(&Property{
 		ID: "C56",
 		Explanation: "Decides ordering and bit-layout conditions of the index hash table, not multimap semantics for every insertion sequence: (indexmap-shape) indexMap.add grows the table (preallocate(numentries+1), which may re-bucket) before it computes the bucket of the new key, stores the key in the new entry, links it to the old head of that bucket and makes it the new head with the old head's bloom bits carried over, and counts it on every path; preallocate re-hashes only after the new bucket array was installed; get and valuesWithID hand out an entry only on the edge e.id == id, and get/valuesWithID/firstIndex walk the chain that starts at m.buckets[m.hash(id)] while bloomHasID allows; init reserves entry 0 (end-of-chain marker) and values/preallocate enumerate from index 1; (bloom-layout) bloomMask == 1<<bloomShift - 1, bloomForID's bit number is id[0] % (64-bloomShift), bloomHasID/bloomInsertID shift by bloomShift, bloomInsertID keeps the previous head's bits, bloomCleanID masks with bloomMask, resolve strips the bloom bits, and newEntry returns only when the allocated index fits below the bloom bits (else it panics). Not decided: that every inserted entry is found for every sequence of insertions and growth steps, stability of firstIndex, and the hashed array tree's block arithmetic.",
 		Assumptions: commonAssumptions,
